@@ -15,6 +15,10 @@ CLAIMED = {
          "<= 3 constituents x <= 2-3 events; array-backed constituents; indirect calls restricted to them; typed static allocator except in the *_realmalloc obligation.", "symbolic k-way merge histories", "6 C03"),
  'C05': ("Token-level round trip: send_rrul/send_task run with the writer replaced by recorders; the recorded keys and integers are read back through the real keyword tables, snarf_fld and make_task and must rebuild the same rule parts / numeric task fields for every admitted value.",
          "BY-lists of 2 values, three BY-parts per query; character-level text round trip, TZID/SCALE/EXDATE serialisation and stream position are outside (position: C16).", "recorder-as-reader over the real serialiser", "6 C05"),
+ 'C04': ("_inject_task1 -> resched/unwind_till/instant_to_tstamp -> task_cb/run_task -> chld_cb/unsched for one task with symbolic occurrences, a symbolic load time and symbolic non-decreasing wake-up times with optional child exits; per step exactly one run is started iff an occurrence with load <= t < now is outstanding; instant_to_tstamp equals the oracle epoch second for every instant of 2001..2099 (own obligation).",
+         "one task, 2 occurrences (any second of two consecutive days), 2-3 loop iterations quick (3 occurrences, 4 iterations thorough); libev/spawn stand-ins with libev 4's reschedule-then-callback order; replace/cancel histories and several tasks are C11/C12's harnesses.", "symbolic wake-up schedules against epoch-second ground truth", "6 C04"),
+ 'C10': ("_ical_push/_ical_pull/esccpy executed on N fully symbolic bytes (all 256 values), once as one chunk and once split at each position, with the callers' pull protocol (pull until need-more-data, the extra pull round at end of input, the last pull); every completed line handed to the component parser is recorded and must be identical; bounds/pointer checks and a canary on the line stash; unwinding assertions bound the chopping loops.",
+         "N <= 4 bytes quick (5-6 thorough), two chunks, line stash reduced to 16 bytes (hook; 3 bytes for the over-long-line safety obligations); the component state machine _ical_proc is observed through hook ECHSE_VERIF_PROC, it is a function of (state, line); known finding C10-1 (escape split) excluded and re-confirmed each run.", "chunked-vs-whole differential on symbolic bytes", "6 C10"),
  'C09': ("The fillers called as refill() calls them with bounds/pointer checks on the real cache buffer (cache 4 via hook): overshoot shapes, the maximal BYHOUR/BYSECOND lists, and empty recurrence sets that must end the stream within the unwinding bound (a failed unwinding assertion is replayed natively under a time limit).",
          "cache 4 instead of 64; termination obligations start near the end of the supported range; sparse-shape memory safety rides on C01's obligations.", "bounds checks + unwinding assertions as termination obligations", "6 C09"),
  'C12': ("task_cb/chld_cb/run_task with symbolic limits under symbolic schedules of timer expiries and child exits; the harness keeps the ground truth of really running executions.",
